@@ -154,54 +154,10 @@ Proof.
 Qed.
 
 (* the structural cleaner only ever yields Ok / InvalidValueError: it refines the coarse one *)
-Lemma wrap_embedded_cases : forall extra m r, In r (wrap_embedded extra m) ->
-  r = Val tt \/ r = Exc (Known K_InvalidValueError) S_lib.
+Lemma cov_clean_struct_any : forall fuel V R strictext refuse classes ac io s ov,
+  covered (clean_struct fuel V R strictext refuse classes ac io s ov) (clean_any ac io s ov).
 Proof.
-  intros extra m r Hin. unfold wrap_embedded in Hin. apply in_app_or in Hin. destruct Hin as [Hin|Hin].
-  - destruct (existsb is_val m); [destruct Hin as [<-|[]]; left; reflexivity|destruct Hin].
-  - destruct (extra || existsb (fun r0 => negb (is_val r0)) m); [destruct Hin as [<-|[]]; right; reflexivity|destruct Hin].
-Qed.
-
-Definition simple (m : M unit) : Prop := forall r, In r m -> r = Val tt \/ r = Exc (Known K_InvalidValueError) S_lib.
-
-Lemma simple_may : simple (may [K_InvalidValueError]).
-Proof. intros r [<-|[<-|[]]]; [left|right]; reflexivity. Qed.
-Lemma simple_fail : simple (fail K_InvalidValueError).
-Proof. intros r [<-|[]]. right; reflexivity. Qed.
-Lemma simple_ret : simple (ret tt).
-Proof. intros r [<-|[]]. left; reflexivity. Qed.
-Lemma simple_seq : forall m k, simple m -> simple k -> simple (seq m k).
-Proof.
-  intros m k Hm Hk r Hr. unfold seq, bind in Hr. apply in_flat_map in Hr. destruct Hr as [x [Hx Hr]].
-  destruct (Hm x Hx) as [-> | ->]; [apply Hk; exact Hr|]. destruct Hr as [<-|[]]. right; reflexivity.
-Qed.
-
-Lemma simple_clean_struct : forall fuel V R strictext classes ac io s ov, simple (clean_struct fuel V R strictext classes ac io s ov).
-Proof.
-  intros. destruct fuel; simpl; [apply simple_may|].
-  destruct ov as [v|]; [|apply simple_may].
-  destruct (s_kind s); [apply simple_may| |].
-  - destruct (class_named ckey classes); [|apply simple_may].
-    destruct v; try apply simple_fail. intros r Hr. eapply wrap_embedded_cases; exact Hr.
-  - destruct (class_named ckey classes); [|apply simple_may].
-    destruct v; try apply simple_fail.
-    assert (Hfold : forall l0, simple (fold_right (fun (item : jvalue) (acc : M unit) =>
-              match item with
-              | JObj m => wrap_embedded (mem_key (us "custom_properties") m)
-                            (call_check m false ;;;
-                             construct V R (clean_struct fuel V R strictext classes) strictext (fun _ => TBad) c ac io m) ;;; acc
-              | _ => fail K_InvalidValueError
-              end) (ret tt) l0)).
-    { induction l0 as [|item r IH]; simpl; [apply simple_ret|].
-      destruct item; try apply simple_fail.
-      apply simple_seq; [intros r0 Hr0; eapply wrap_embedded_cases; exact Hr0|exact IH]. }
-    destruct l as [|x l]; [apply simple_fail|apply Hfold].
-Qed.
-
-Lemma cov_clean_struct_any : forall fuel V R strictext classes ac io s ov,
-  covered (clean_struct fuel V R strictext classes ac io s ov) (clean_any ac io s ov).
-Proof.
-  intros. intros r Hr. destruct (simple_clean_struct _ _ _ _ _ _ _ _ _ r Hr) as [-> | ->].
+  intros. intros r Hr. destruct (simple_clean_struct _ _ _ _ _ _ _ _ _ _ r Hr) as [-> | ->].
   - exists (Val tt). split; [left; reflexivity|left; reflexivity].
-  - exists (Exc (Known K_InvalidValueError) S_lib). split; [right; left; reflexivity|left; reflexivity].
+  - exists ive. split; [right; left; reflexivity|left; reflexivity].
 Qed.
